@@ -46,7 +46,10 @@ impl Adf {
             .read()
             .expect("ReadLock on namelist failed")
             .clone();
-        let slice_vec: Vec<&str> = namelist.iter().map(<_>::as_ref).collect();
+        // biodivine restricts the characters of variable names, statement labels do not:
+        // the variables are named after their position
+        let bio_names: Vec<String> = (0..namelist.len()).map(Self::bio_var_name).collect();
+        let slice_vec: Vec<&str> = bio_names.iter().map(<_>::as_ref).collect();
         bdd_var_builder.make_variables(&slice_vec);
         let bdd_variables = bdd_var_builder.build();
         let mut result = Self {
@@ -72,7 +75,7 @@ impl Adf {
                 );
                 result.ac[*new_order] = result
                     .varset
-                    .eval_expression(&parser.ac_at(insert_order).expect("Insert order needs to exist, as all the data originates from the same parser object").to_boolean_expr());
+                    .eval_expression(&parser.ac_at(insert_order).expect("Insert order needs to exist, as all the data originates from the same parser object").to_boolean_expr(&|name| Self::bio_var_name(parser.dict_value(name).expect("Variable should exist"))));
                 log::trace!("instantiated {}", result.ac[*new_order]);
             });
         log::info!("[Success] instantiated");
@@ -95,18 +98,19 @@ impl Adf {
                 BooleanExpression::And(
                     Box::new(acc),
                     Box::new(BooleanExpression::Iff(
-                        Box::new(BooleanExpression::Variable(
-                            self.ordering
-                                .name(crate::datatypes::Var(*new_order))
-                                .expect("Variable should exist"),
-                        )),
-                        Box::new(parser.ac_at(insert_order).expect("Insert order needs to exist, as all the data originates from the same parser object").to_boolean_expr()),
+                        Box::new(BooleanExpression::Variable(Self::bio_var_name(*new_order))),
+                        Box::new(parser.ac_at(insert_order).expect("Insert order needs to exist, as all the data originates from the same parser object").to_boolean_expr(&|name| Self::bio_var_name(parser.dict_value(name).expect("Variable should exist")))),
                     )),
                 )
             },
         );
         log::trace!("{:?}", expr);
         self.rewrite = Some(self.varset.eval_expression(&expr));
+    }
+
+    /// Name of the biodivine variable which represents the statement at position `idx`.
+    fn bio_var_name(idx: usize) -> String {
+        format!("v{idx}")
     }
 
     /// returns `true` if the stable rewriting for this ADF exists.
@@ -326,11 +330,9 @@ impl Adf {
             |acc, (idx, formula)| {
                 acc.and(
                     &formula.iff(
-                        &self.varset.eval_expression(&BooleanExpression::Variable(
-                            self.ordering
-                                .name(crate::datatypes::Var(idx))
-                                .expect("Variable should exist"),
-                        )),
+                        &self
+                            .varset
+                            .eval_expression(&BooleanExpression::Variable(Self::bio_var_name(idx))),
                     ),
                 )
             },
